@@ -6,7 +6,7 @@ from .tape import Tape
 
 SIGNIFICANT = list('*_`[]()<>!#+-=.|~\\&:;"\'$^{}/@%')
 LETTERS = list('abcxyzAZ') + ['é', 'ß', 'Σ', '中', 'я']
-DIGITS = list('0123456789')
+DIGITS = list('0123456789') + ['\u0663', '\u0967', '\uff11']      # incl. digits of other scripts
 UNI_PUNCT = ['«', '»', '—', '“', '”', '…']
 UNI_SPACE = [' ', ' ', '　']
 ASTRAL = ['\U0001F600']
@@ -26,7 +26,7 @@ def raw_text(t, max_len=300):
 
 
 INDENTS = ['', '', '', ' ', '  ', '   ', '    ', '     ', '        ', '\t', ' \t']
-CONTAINER_PREFIXES = ['> ', '>', '- ', '1. ', '12) ', '+   ', '* ', '>  ', '0. ', '-\t', '  - ', '   > ']
+CONTAINER_PREFIXES = ['> ', '>', '- ', '1. ', '\u0663. ', '\u0967) ', '12) ', '+   ', '* ', '>  ', '0. ', '-\t', '  - ', '   > ']
 BLOCK_OPENERS = ['# ', '## ', '###### ', '####### ', '#', '```', '~~~', '````', '``` py', '~~~ a`b', '***', '---', '___',
                  '- - -', '===', '=', '--', '|a|b|', '|:-|-:|', '|---|', 'a|b', '-|-', '[l]: u "t"', '[l]: <u v>', '[l]:',
                  '[l]: /u\n"t"', '| a | b |\n|---|---|', 'a|b\n-|:-:\nc|d', '|x|\n|-|\n', '<div>', '</div>', '<!--', '-->', '<?', '?>', '<![CDATA[', ']]>', '<pre>', '</pre>', '<script>',
@@ -58,7 +58,7 @@ def numeric_ref(t):
     return '&#' + body + (';' if not t.chance(30) else '')
 
 
-INLINE += ['</body>', '<body>', '</html>', '<head>', '</script>', '<title>', 'a\tb', 'foo\tbar', 'x\t', 'a>\tb', 'q>\t', '&#1114111;', '&#1114112;', '&#x10FFFF;', '&#x110000;', '&#xD800;', '&#9999999;', '&#xFFFFFF;', '&#128;', '&#x80;', '\x00', '\ufeff']
+INLINE += ['\u0663.', '\u0967)', '\uff11.', '</body>', '<body>', '</html>', '<head>', '</script>', '<title>', 'a\tb', 'foo\tbar', 'x\t', 'a>\tb', 'q>\t', '&#1114111;', '&#1114112;', '&#x10FFFF;', '&#x110000;', '&#xD800;', '&#9999999;', '&#xFFFFFF;', '&#128;', '&#x80;', '\x00', '\ufeff']
 
 
 def line_doc(t, max_lines=14):
